@@ -64,7 +64,8 @@ def gen_cases(tier, rng):
                         dec.append(("size", s, 1, 3))
                         dec.append(("size", s, 0, 2))
     # ---- strings of length 8..11 with every value (quick: boundary set) in the last three positions
-    prefixes = lambda n: [bytes([0] * n), bytes([0x7f] * n), bytes([1] + [0] * (n - 1)), bytes(rng.randrange(128) for _ in range(n))]
+    prefixes = lambda n: ([bytes([0] * n), bytes([0x7f] * n), bytes([1] + [0] * (n - 1)), bytes(rng.randrange(128) for _ in range(n))]
+                          if tier == "quick" else [bytes([0] * n), bytes(rng.randrange(128) for _ in range(n))])
     for L in (8, 9, 10, 11):
         for pre in prefixes(L - 3):
             if tier == "thorough":
